@@ -35,6 +35,17 @@ def import_cryocat():
     return cryocat
 
 
+def assert_cryocat_origin():
+    """Every loaded cryocat module must come from REPO (a scratch tree that vanished mid-run would silently fall back
+    to the editable install of /repo)."""
+    root = os.path.realpath(os.path.join(REPO, "cryocat"))
+    for name, mod in list(sys.modules.items()):
+        if name == "cryocat" or name.startswith("cryocat."):
+            f = getattr(mod, "__file__", None)
+            if f and not os.path.realpath(f).startswith(root + os.sep):
+                raise MachineryError("module %s was imported from %s, not from %s" % (name, f, root))
+
+
 def stable_hash(obj):
     return hashlib.sha1(json.dumps(obj, sort_keys=True, default=str).encode()).hexdigest()[:12]
 
